@@ -140,6 +140,12 @@ pub trait Prop: Sync + Send {
     fn shrink(&self, _case: &Value) -> Vec<Value> {
         Vec::new()
     }
+    /// Run the cases in a child process, so that a crash of the system under
+    /// test (memory unsafety) is reported as a violation instead of killing the
+    /// check.
+    fn isolate(&self) -> bool {
+        false
+    }
 }
 
 pub struct KnownFindings {
@@ -277,6 +283,8 @@ pub struct CheckOptions {
     pub known_findings: String,
     pub write_evidence: bool,
     pub max_seconds: Option<u64>,
+    /// first case index (for locating a crash)
+    pub from: u64,
 }
 
 pub struct CheckResult {
@@ -287,7 +295,7 @@ pub struct CheckResult {
 pub fn run_check(prop: &dyn Prop, opt: &CheckOptions) -> CheckResult {
     let t0 = Instant::now();
     let n_cases = opt.cases.unwrap_or_else(|| prop.cases(opt.tier));
-    let next = AtomicU64::new(0);
+    let next = AtomicU64::new(opt.from);
     let stop = AtomicBool::new(false);
     let failures: Mutex<Vec<(u64, Failure)>> = Mutex::new(Vec::new());
     let merged: Mutex<Stats> = Mutex::new(Stats::default());
